@@ -5,11 +5,13 @@ package main
 
 import (
 	"bytes"
+	"context"
 	"fmt"
 	"os"
 	"os/exec"
 	"path/filepath"
 	"strings"
+	"time"
 
 	"google.golang.org/protobuf/proto"
 	"google.golang.org/protobuf/reflect/protodesc"
@@ -368,6 +370,7 @@ type pluginResult struct {
 	ExitErr  string // non-empty when the process did not exit 0
 	Stderr   string
 	Panicked bool
+	TimedOut bool
 	BadResp  string // response did not unmarshal
 	Resp     *pluginpb.CodeGeneratorResponse
 }
@@ -399,7 +402,10 @@ func runPlugin(req *pluginpb.CodeGeneratorRequest) *pluginResult {
 	if err != nil {
 		return &pluginResult{ExitErr: "marshal request: " + err.Error()}
 	}
-	cmd := exec.Command(pluginPath)
+	// hang guard: the plugin answers in milliseconds; a minute means the checker cannot decide
+	ctx, cancel := context.WithTimeout(context.Background(), 60*time.Second)
+	defer cancel()
+	cmd := exec.CommandContext(ctx, pluginPath)
 	cmd.Dir = filepath.Dir(pluginPath)
 	cmd.Stdin = bytes.NewReader(in)
 	var stdout, stderr bytes.Buffer
@@ -407,6 +413,9 @@ func runPlugin(req *pluginpb.CodeGeneratorRequest) *pluginResult {
 	res := &pluginResult{}
 	if err := cmd.Run(); err != nil {
 		res.ExitErr = err.Error()
+		if ctx.Err() != nil {
+			res.TimedOut = true
+		}
 	}
 	res.Stderr = stderr.String()
 	if strings.Contains(res.Stderr, "panic:") || strings.Contains(res.Stderr, "goroutine 1 [") {
